@@ -90,18 +90,19 @@ LineMeaning(ctx, line) ==
     [] line.form = "unix_to_date" ->
          LET a == DateOperand(line.a, ctx.today) IN
          [slot |-> IF a.k = "date" THEN DateToUnix(a) ELSE Unspec, env |-> ctx.env]
-    \* '<date> at <time>': that wall-clock time on that date, a date-time.  Specified under a UTC default zone (how the
-    \* time's zone and the date's zone combine otherwise is not stated by any property).
+    \* '<date> at <time>': that wall-clock time on that day in the configured zone - a date-time, shown in that zone.
+    \* (The instant of wall clock w on day a in a zone of offset off is a.day * 86400 + w - off * 60.)
     [] line.form \in {"dt_at", "dt_unix", "dt_shift", "dt_conv"} ->
-         LET a == DateOperand(line.a, ctx.today) IN
-         IF a.k # "date" \/ ctx.calc.tz.off # 0 THEN [slot |-> Unspec, env |-> ctx.env]
-         ELSE LET t == IF line.form = "dt_shift"
+         LET a == DateOperand(line.a, ctx.today)  z == ctx.calc.tz IN
+         IF a.k # "date" THEN [slot |-> Unspec, env |-> ctx.env]
+         ELSE LET w0 == line.w - z.off * 60
+                  t == IF line.form = "dt_shift"
                        THEN LET du == SumParts(line.parts) IN
-                            IF line.op = "+" THEN Ts(a.day + du.d, line.w + du.s) ELSE Ts(a.day - du.d, line.w - du.s)
-                       ELSE Ts(a.day, line.w)
+                            IF line.op = "+" THEN Ts(a.day + du.d, w0 + du.s) ELSE Ts(a.day - du.d, w0 - du.s)
+                       ELSE Ts(a.day, w0)
               IN  [slot |-> CASE line.form = "dt_unix" -> t
                               [] line.form = "dt_conv" -> DateTime(t.d, t.s, line.z2.off, line.z2.name)
-                              [] OTHER -> DateTime(t.d, t.s, ctx.calc.tz.off, ctx.calc.tz.name),
+                              [] OTHER -> DateTime(t.d, t.s, z.off, z.name),
                    env |-> ctx.env]
     [] line.form = "unix_to_time" ->
          [slot |-> IF ctx.calc.tz.off = 0 THEN TimeToUnix(line.w, ctx.today) ELSE Unspec, env |-> ctx.env]
